@@ -161,6 +161,21 @@ Theorem C13_never_stuck : forall (idle maxw wcap tokens0 : Z) (tr : list label) 
 Proof. exact never_stuck. Qed.
 Print Assumptions C13_never_stuck.
 
+(** ... and a due head is started after at most [watchers] + 1 worker steps: while the head
+    is due every locked section pops, and every live worker is at most one step (timer or
+    token wake-up, callback return) away from its next locked section.  No timer fact and
+    no fairness premise: the statement is about every accepted run of worker labels. *)
+Theorem C13_due_head_started_within : forall (idle maxw wcap tokens0 : Z) (tr0 : list label) (p : pool)
+                                             (tr : list label) (p' : pool),
+  0 <= idle -> 1 <= maxw -> 1 <= wcap -> 0 <= tokens0 <= wcap ->
+  run (init_pool idle maxw wcap tokens0) tr0 = Some p ->
+  arr (hp p) <> [] -> head_fire (hp p) < now p ->
+  forallb worker_label tr = true -> run p tr = Some p' ->
+  watchers p < Z.of_nat (length tr) ->
+  trace_starts p tr <> [].
+Proof. exact due_head_started_within. Qed.
+Print Assumptions C13_due_head_started_within.
+
 (** coverage for a pool limited to one worker holds without the timer fact (the exit with a
     non-empty heap needs a second worker) *)
 Theorem C13_coverage_single_worker : forall (idle wcap tokens0 : Z) (tr : list label) (p : pool),
@@ -259,3 +274,12 @@ Example C13_ex_due_state :
   = Some ([(1%N, 0); (2%N, 1)], [Sleeping 1 5], 1, 10, 5, true, true)
   /\ strict_run (init_pool 50 2 2 0) C13_ex_due = true.
 Proof. vm_compute. split; reflexivity. Qed.
+
+(* started within watchers + 1 steps: from the state of [C13_ex_due] (one worker, asleep,
+   head due) two worker labels are possible before a start - not more: the timer wake-up,
+   then the locked section that pops future 1 *)
+Example C13_ex_due_started :
+  option_map (fun p => (watchers p, trace_starts p [LWakeTimer 0 10; LDecide 0 11]))
+             (run (init_pool 50 2 2 0) C13_ex_due)
+  = Some (1, [(1%N, 11)]).
+Proof. vm_compute. reflexivity. Qed.
